@@ -17,6 +17,10 @@ type SubscriptionService struct {
 	// pub sub stuff
 	Mu   sync.Mutex
 	Subs map[uint32]*Subscription
+
+	// lastSubID is the id given to the most recently created subscription.
+	// Ids are never reused, so a late delete of an old id cannot hit a new subscription.
+	lastSubID uint32
 }
 
 // get rid of all references to a subscription and all monitored items that are pointed at this subscription.
@@ -57,7 +61,11 @@ func (s *SubscriptionService) CreateSubscription(sc *uasc.SecureChannel, r ua.Re
 	s.Mu.Lock()
 	defer s.Mu.Unlock()
 
-	newsubid := uint32(len(s.Subs)) + 1
+	s.lastSubID++
+	if s.lastSubID == 0 {
+		s.lastSubID++
+	}
+	newsubid := s.lastSubID
 
 	if s.srv.cfg.logger != nil {
 		s.srv.cfg.logger.Info("New Sub %d for %v", newsubid, sc.RemoteAddr())
